@@ -563,9 +563,11 @@ impl<'de, R: Read<'de>> Parser<R> {
                 if self.options.leading_digit_symbols {
                     let symbol = self.parse_symbol()?;
                     let mut num_parser = Parser::from_slice_custom(symbol.as_bytes(), self.options);
+                    // Only a token that is a numeric literal as a whole is a
+                    // number; a numeric prefix (as in `1+`) does not count.
                     match num_parser.parse_num_literal(10, true) {
-                        Ok(token) => Token::Number(token),
-                        Err(_) => self.symbol_or_postfix_keyword(symbol),
+                        Ok(token) if matches!(num_parser.peek(), Ok(None)) => Token::Number(token),
+                        _ => self.symbol_or_postfix_keyword(symbol),
                     }
                 } else {
                     Token::Number(self.parse_num_literal(10, true)?)
@@ -672,6 +674,15 @@ impl<'de, R: Read<'de>> Parser<R> {
                 }
             }
         };
+        if let Token::Number(_) = token {
+            // A numeric literal has to end at a delimiter; `1+` or `12ab` is
+            // not a number followed by something else.
+            match self.peek()? {
+                None => {}
+                Some(c) if is_symbol_terminator(c) || c == b'"' => {}
+                Some(_) => return Err(self.peek_error(ErrorCode::InvalidNumber)),
+            }
+        }
         Ok(token)
     }
 
